@@ -271,11 +271,9 @@ theorem resolve_sound_state {proj : Project} {rank : List Nat} (wf : WFacts proj
         | nil => simp at hfo
         | cons r rest =>
           simp only at hfo
-          cases hfind : (finalEnv s).st.roots.find? (fun ro => match getObj (finalEnv s).st ro with
-              | some o => decide (o.name = r) | none => false) with
-          | none => simp [hfind] at hfo
-          | some ro =>
-            simp only [hfind] at hfo
+          split at hfo
+          · cases hfo
+          · rename_i ro hfind
             by_cases hrest : rest = []
             · simp [hrest] at hfo
             · simp only [hrest, if_false] at hfo
